@@ -10,7 +10,7 @@ from harness.common import Check, chunks, pmap, tmap, NPROC
 
 PREDS = ([{"name": n, "extra": []} for n in
           ["before", "after", "inside", "direct_child", "same_position", "different_position", "consecutive"]]
-         + [{"name": "nth", "extra": [k]} for k in (1, 2, 3)]
+         + [{"name": "nth", "extra": [k]} for k in (0, 1, 2, 3, 4)]
          + [{"name": "level", "extra": [o, nt]} for o in ("EQ", "GE", "LE", "GT", "LT") for nt in ("<A>", "<B>")])
 BOUNDS = {"quick": (7, 5), "thorough": (8, 6)}
 WALK = "CONSTANTS MaxPlain = %d MaxLab = %d WalkDepth = 4 WalkArity = 3\n"
@@ -85,6 +85,8 @@ def run(chk, trees_in=None):
                 pr = PREDS[k - 1]
                 rel = ("same" if p == q else "anc" if q[:len(p)] == p else "desc" if p[:len(q)] == q else "side")
                 sig = {"pred": pr["name"], "got": {0: "false", 1: "true", 2: "exception"}[got], "relation": rel}
+                if pr["name"] == "consecutive":
+                    sig["lcp_root"] = not (p and q and p[0] == q[0])   # is the longest common prefix of the two paths the root?
                 chk.mismatch(sig, {"tree": byidx[idx]["t"], "p": p, "q": q, "pred": pr,
                                    "expected": bool(exp), "observed": sig["got"]})
         if judged != len(obs):
